@@ -105,9 +105,12 @@ def gen_spec(rng, n=None):
     else:
         ref = {'kind': 'table' if rr < 0.85 else 'corrector', 'region': rng.choice(['centre', 'centre', 'wide', 'east']),
                'ids': None}
-    return {'images': list(zip(origins, kinds, gids)), 'errs': errs, 'ref': ref,
+    spec = {'images': list(zip(origins, kinds, gids)), 'errs': errs, 'ref': ref,
             'expand': rng.random() < 0.75, 'enforce': rng.random() < 0.5, 'minobj': None, 'fitgeom': fitgeom,
             'match': True}
+    if any(g is not None for g in gids) and rng.random() < 0.7:
+        spec['labels'] = alignsim.draw_labels(rng, gids)   # group ids are any hashable, falsy ones included
+    return spec
 
 
 # ---------------------------------------------------------------------------
@@ -268,18 +271,29 @@ def clean_images(rec):
 
 
 def zero_overlap_groups(rec):
-    """groups whose overlap with the reference was exactly zero when they were selected"""
+    """groups whose overlap with the reference was exactly zero when they were selected.  The overlap
+    is taken from the guarded intersection areas observed while the ordering function evaluated them
+    (`calls`), NOT from the area the ordering function returned: whether the returned area is the true
+    one is part of what is being checked"""
     out = set()
     kept = rec['kept'] or []
     for oc in rec['obs'].order_calls:
-        if oc['fn'] == 'next' and oc['ret'][0] is not None and oc['ret'][1] == 0.0:
-            g = oc['work'][oc['ret'][0]]
-            if g is not None and g < len(kept):
-                out.add(tuple(kept[g]))
-        if oc['fn'] == 'pair' and oc['ret'][1] is not None and oc['ret'][2] == 0.0:
-            g = oc['ret'][1]
-            if g < len(kept):
-                out.add(tuple(kept[g]))
+        if oc['fn'] == 'next' and oc['ret'][0] is not None:
+            true = [a for (p, a, _nf) in oc['calls'] if p == oc['ret'][0]]
+            area = true[0] if true else oc['ret'][1]
+            if area == 0.0:
+                g = oc['work'][oc['ret'][0]]
+                if g is not None and g < len(kept):
+                    out.add(tuple(kept[g]))
+        if oc['fn'] == 'pair' and oc['ret'][1] is not None:
+            r, j = oc['ret'][0], oc['ret'][1]
+            true = [a for (p, q, a, _nf) in oc['calls'] if p is not None and q is not None and {p, q} == {r, j}]
+            if not true and oc['calls'] and (oc['enforce'] or oc['n'] == 2):
+                true = [oc['calls'][0][2]]
+            area = true[0] if true else oc['ret'][2]
+            if area == 0.0:
+                if j < len(kept):
+                    out.add(tuple(kept[j]))
     return out
 
 
@@ -345,6 +359,16 @@ def run(ctx):
                         'errs': [(0.9, -0.7), (-1.2, 0.5), (0.4, 1.3)], 'ref': ref, 'expand': True,
                         'enforce': enforce, 'minobj': None, 'fitgeom': 'rscale', 'match': True}
                 do_scenario(ctx, scene, scene_seed, spec, lines, pending, 'corpus')
+    # overlap-ordered runs in which the reference PRECEDES its partner in the input list and the partner
+    # fails to align although it overlaps the reference (the area returned with the pair decides
+    # whether its unmatched sources are appended): partner adjacent to the reference, and one image apart
+    for origins, kinds in (([(0, 0), (200, 0), (0, 400)], ['good', 'junk', 'good']),
+                           ([(0, 0), (0, 400), (200, 0)], ['good', 'good', 'junk']),
+                           ([(0, 0), (200, 0), (0, 400), (900, 900)], ['good', 'junk', 'good', 'good'])):
+        spec = {'images': [(o, k, None) for o, k in zip(origins, kinds)],
+                'errs': [(0.6, -0.4), (-0.9, 0.7), (0.3, 1.1), (-0.5, -0.8)][:len(origins)], 'ref': None,
+                'expand': True, 'enforce': False, 'minobj': None, 'fitgeom': 'rscale', 'match': True}
+        do_scenario(ctx, scene, scene_seed, spec, lines, pending, 'corpus:pair-area')
     for _ in range(ctx.n(70, 350)):
         spec = gen_spec(rng)
         if spec is None:
